@@ -98,13 +98,13 @@ package main
 //@ spec func effMode(t *Topic, u types.Uid) types.AccessMode { return t.perUser[u].modeGiven & t.perUser[u].modeWant }
 
 //@ func (t *Topic) replyDelMsg(sess *Session, asUid types.Uid, asChan bool, msg *ClientComMessage) (err error)
-//@   requires [C04] t != nil && sess != nil && msg != nil && msg.Del != nil && asUid != types.ZeroUid
+//@   requires [C04,C08] t != nil && sess != nil && msg != nil && msg.Del != nil && asUid != types.ZeroUid
 //@   assert at call DeleteList [C04] gate:          !asChan && (effMode(t, asUid) & (types.ModeDelete | types.ModeRead)) != 0
-//@   assert at call DeleteList [C04] target:        $1 == t.name && $2 == t.delID + 1 && ($3 == types.ZeroUid || $3 == asUid)
+//@   assert at call DeleteList [C04,C08] target:        $1 == t.name && $2 == t.delID + 1 && ($3 == types.ZeroUid || $3 == asUid)
 //@   assert at call DeleteList [C04] hard_needs_D:  $3 == types.ZeroUid ==> old(msg.Del.Hard) && (effMode(t, asUid) & types.ModeDelete) != 0
 //@   assert at call DeleteList [C04] soft_for_self: $3 == asUid ==> !(old(msg.Del.Hard) && (effMode(t, asUid) & types.ModeDelete) != 0)
-//@   ensures [C04] delid_next: err == nil ==> t.delID == old(t.delID) + 1
-//@   ensures [C04] delid_kept: err != nil ==> t.delID == old(t.delID)
+//@   ensures [C04,C08] delid_next: err == nil ==> t.delID == old(t.delID) + 1
+//@   ensures [C04,C08] delid_kept: err != nil ==> t.delID == old(t.delID)
 //@   modifies inferred
 //@   loop 1
 //@     invariant wf: forall k int :: 0 <= k && k < len(ranges) ==> ranges[k].Low >= 0 && (ranges[k].Hi == 0 || ranges[k].Hi > ranges[k].Low)
@@ -221,6 +221,7 @@ package main
 //@   ensures [C10] online_not_raised: forall u types.Uid :: (u in t.perUser) && old(u in t.perUser) ==> t.perUser[u].online == old(t.perUser[u].online) || t.perUser[u].online == 0
 //@   ensures [C06] subscriber_stays: !unsub && old((uid in t.perUser) && !t.perUser[uid].isChan) ==> (uid in t.perUser)
 //@   ensures [C10] evicted_counts_no_sessions: (uid in t.perUser) ==> t.perUser[uid].online == 0
+//@   ensures [C08] marks_kept: forall u types.Uid :: (u in t.perUser) && old(u in t.perUser) ==> t.perUser[u].readID == old(t.perUser[u].readID) && t.perUser[u].recvID == old(t.perUser[u].recvID) && t.perUser[u].delID == old(t.perUser[u].delID) && (t.perUser[u].deleted == old(t.perUser[u].deleted) || (unsub && u == uid))
 //@   modifies inferred
 //@   loop 1
 //@     invariant seen_clean: forall s *Session :: #seen[s] && (s in t.sessions) && s != nil && s.multi == nil ==> t.sessions[s].uid != uid
@@ -441,6 +442,8 @@ package main
 //@   ensures [C07] explicit_needs_admin: old(pkt.Set.Sub.Mode) != "" && !old(isAdminOf(t, asUid)) ==> err != nil && (target in t.perUser) == old(target in t.perUser) && t.perUser[target].modeGiven == old(t.perUser[target].modeGiven) && t.perUser[target].modeWant == old(t.perUser[target].modeWant)
 //@   ensures [C07] others_untouched: forall u types.Uid :: u != target ==> (u in t.perUser) == old(u in t.perUser) && ((u in t.perUser) ==> t.perUser[u].modeWant == old(t.perUser[u].modeWant) && t.perUser[u].modeGiven == old(t.perUser[u].modeGiven))
 //@   ensures [C07] want_untouched: old((target in t.perUser) && !t.perUser[target].deleted) && (target in t.perUser) ==> t.perUser[target].modeWant == old(t.perUser[target].modeWant)
+// (the store creates - or un-deletes - the invited user's row with all marks at zero: the cached record starts the same way)
+//@   ensures [C08] invited_record_starts_fresh: err == nil && !old((target in t.perUser) && !t.perUser[target].deleted) && (target in t.perUser) ==> t.perUser[target].readID == 0 && t.perUser[target].recvID == 0 && t.perUser[target].delID == 0 && !t.perUser[target].deleted
 //@   ensures [C07] p2p_modes: t.cat == types.TopicCatP2P && old(pkt.Set.Sub.Mode) != "" && (target in t.perUser) && t.perUser[target].modeGiven != old(t.perUser[target].modeGiven) ==> (t.perUser[target].modeGiven & ^types.ModeCP2P) == 0 && (t.perUser[target].modeGiven & types.ModeApprove) != 0
 //@   ensures [C07] p2p_default_invite: t.cat == types.TopicCatP2P && old(pkt.Set.Sub.Mode) == "" && (target in t.perUser) && t.perUser[target].modeGiven != old(t.perUser[target].modeGiven) ==> (t.perUser[target].modeGiven & ^types.ModeCP2P) == 0 && (t.perUser[target].modeGiven & types.ModeApprove) != 0
 //@   ensures [C07] no_channel_promotion: asChan ==> err != nil
